@@ -8,6 +8,7 @@ Open Scope list_scope.
 
 Definition insf_now : bool := btree_update_insert_first.
 Definition front_now : bool := unique_index_front.
+Definition comp_now : bool := update_compensates_failed_index.
 
 Definition ucase := (list field * list (list string) * list op)%type.
 Definition uobs := (list res * list Z * list (Z * list val) * list (nat * key * list Z) * bool)%type.
@@ -35,7 +36,7 @@ Definition same_set (a b : list Z) : bool :=
 
 Definition final_state (c : ucase) : state * list res :=
   let '(sch, specs, ops) := c in
-  run insf_now sch (init (build_indexes sch specs)) ops.
+  run insf_now comp_now sch (init (build_indexes sch specs)) ops.
 
 Definition check_case (co : ucase * uobs) : bool :=
   let '(c, o) := co in
